@@ -10,6 +10,7 @@ mod c08;
 mod c09;
 mod c10;
 mod c12;
+mod c13;
 mod c15;
 mod c16;
 mod c18;
@@ -51,6 +52,8 @@ fn main() {
         ("c14", "run") => c10::run(false),
         ("c12", "gen") => c12::gen(seed, thorough),
         ("c12", "run") => c12::run(),
+        ("c13", "gen") => c13::gen(seed, thorough),
+        ("c13", "run") => c13::run(),
         ("c15", "gen") => c15::gen(seed, thorough),
         ("c15", "run") => c15::run(),
         ("c16", "gen") => c16::gen(seed, thorough),
